@@ -66,6 +66,8 @@ class RunCtx(object):
         self.async_mode = False
         self.aborted = False
         self.skipped = None
+        self.live_gens = []         # plain generators the program left suspended (closed at run end)
+        self.late_actors = []       # fire-and-forget remote sides, joined at the very end
         self.trace = []             # cheap event log for the digest
         self.info = {}
 
@@ -227,6 +229,15 @@ class DestBoomNoModule(Exception):
 DestBoomNoModule.__module__ = None
 
 
+class DestBoomUnhashable(Exception):
+    """An exception that defines __eq__ and is therefore unhashable (e.g. a dataclass exception)."""
+
+    def __eq__(self, other):
+        return isinstance(other, DestBoomUnhashable) and self.args == other.args
+
+    __hash__ = None
+
+
 class FaultyDest(object):
     """Destination that raises on a mask of its calls.
 
@@ -284,6 +295,8 @@ class FaultyDest(object):
                 e = DestBoomStr()
             elif ek == 4:
                 e = DestBoomNoModule("no module %s" % self.name)
+            elif ek == 5:
+                e = DestBoomUnhashable("unhashable %s #%d" % (self.name, self.calls))
             else:
                 e = KeyError("k%d" % self.calls)
             r.raised = e
@@ -351,6 +364,18 @@ def run_program(rc, prog, setup=None, teardown=None):
             for a in spawned:
                 sched.yield_point("join")
                 sched.join(a)
+            # an action that never ended (its actor was unwound) must not strand a late remote side
+            joined = 0
+            while True:
+                for n in rc.model.all_actions():
+                    for gate in n.late_gates:
+                        gate.open()
+                if joined >= len(rc.late_actors):
+                    break
+                a = rc.late_actors[joined]
+                joined += 1
+                sched.yield_point("join")
+                sched.join(a)
         if teardown is not None:
             teardown(rc, interp)
 
@@ -371,5 +396,15 @@ def run_program(rc, prog, setup=None, teardown=None):
             rc.fail("no_return", "API call %r did not return within its step budget of %s line events" % (
                 label, sched.call_budget), api=label[0] if isinstance(label, tuple) else str(label))
     finally:
+        if rc.violation is not None or sched.abort is not None:
+            # an aborted run leaves suspended generators / context managers behind; finalise them now,
+            # inside this run, not at some garbage collection during a later one
+            for g in rc.live_gens:
+                try:
+                    g.close()
+                except BaseException:  # noqa
+                    pass
+            import gc
+            gc.collect()
         seams.end_run()
     return interp
